@@ -80,17 +80,28 @@ func (r DIDKeyResolver) ResolveKeyByID(keyID string, metadata *ResolveMetadata, 
 		return nil, err
 	}
 	for _, rel := range relationships {
+		if rel.VerificationMethod == nil {
+			continue
+		}
 		localKeyId := rel.ID.String()
 		if localKeyId == keyID {
-			return rel.PublicKey()
+			return publicKeyOf(rel)
 		} else if baseUrl != nil && strings.HasPrefix(localKeyId, "#") {
 			localKeyId = *baseUrl + localKeyId
 			if localKeyId == keyID {
-				return rel.PublicKey()
+				return publicKeyOf(rel)
 			}
 		}
 	}
 	return nil, ErrKeyNotFound
+}
+
+// publicKeyOf returns the public key of the verification method, or ErrKeyNotFound if it has no key material.
+func publicKeyOf(rel did.VerificationRelationship) (crypto.PublicKey, error) {
+	if rel.VerificationMethod == nil || (rel.PublicKeyJwk == nil && rel.PublicKeyBase58 == "" && rel.PublicKeyMultibase == "") {
+		return nil, ErrKeyNotFound
+	}
+	return rel.PublicKey()
 }
 
 // baseUrl returns the base URL of the given DID Document.
@@ -104,8 +115,9 @@ func (r DIDKeyResolver) baseUrl(doc *did.Document) (baseUrl *string) {
 		if reflect.ValueOf(ctx).Kind() == reflect.Map {
 			m := ctx.(map[string]interface{})
 			if val, ok := m["@base"]; ok {
-				valStr := val.(string)
-				baseUrl = &valStr
+				if valStr, ok := val.(string); ok {
+					baseUrl = &valStr
+				}
 				break
 			}
 
@@ -128,7 +140,7 @@ func (r DIDKeyResolver) ResolveKey(id did.DID, validAt *time.Time, relationType 
 	if len(keys) == 0 {
 		return "", nil, ErrKeyNotFound
 	}
-	publicKey, err := keys[0].PublicKey()
+	publicKey, err := publicKeyOf(keys[0])
 	if err != nil {
 		return "", nil, err
 	}
